@@ -49,6 +49,10 @@ type c06Case struct {
 	MultiKey int `json:"multi_key_percent"`
 	// SlotStep: slots advance by 1 every SlotStep pushes
 	SlotStep int `json:"slot_step"`
+	// Wide > 0: before everything else, WidePushes pushes that each name the same Wide addresses (they all
+	// fill their batches at the same push: a burst of full batches towards the background writer)
+	Wide       int `json:"wide_addresses,omitempty"`
+	WidePushes int `json:"wide_pushes,omitempty"`
 }
 
 func c06Key(i int, tag byte) solana.PublicKey {
@@ -107,9 +111,34 @@ func c06Run(rec *ev.Recorder, c c06Case, root string) {
 	if step <= 0 {
 		step = 3
 	}
-	slot := uint64(7 * 432000)
+	slot := uint64(7*432000) + 1
 	off := uint64(100)
 	pushes := 0
+	if c.Wide > 0 {
+		wide := make(solana.PublicKeySlice, c.Wide)
+		for i := range wide {
+			wide[i] = c06Key(i, 0xBB)
+			model.order = append(model.order, wide[i])
+		}
+		for p := 0; p < c.WidePushes; p++ {
+			e := c06Entry{Offset: off, Size: uint64(40 + p%900), Slot: slot, Flags: byte(p % 8)}
+			off += e.Size
+			if err := w.Push(e.Offset, e.Size, e.Slot, wide, e.Flags&1 != 0, e.Flags&2 != 0, e.Flags&4 != 0); err != nil {
+				rec.Violation("GsfaWriter.Push/error", fmt.Sprintf("%s: wide push %d: %v", c.Name, p, err), c)
+				return
+			}
+			for _, k := range wide {
+				model.m[k] = append(model.m[k], e)
+			}
+			pushes++
+			if p%7 == 6 {
+				slot++
+				if slot%500 == 0 {
+					slot++ // the periodic flush is for the later part of the history
+				}
+			}
+		}
+	}
 	for i := 0; i < len(occs); {
 		keys := solana.PublicKeySlice{occs[i]}
 		i++
@@ -249,6 +278,15 @@ func c06RealCases(seed int64) []c06Case {
 		hotP = append(hotP, c)
 	}
 	hotP = append(hotP, 2500, 1000, 120, 99)
+	// bursts of full batches: 300 addresses named by every push (more full batches at once than the channel
+	// to the background writer holds)
+	if os.Getenv("VERIF_RACE") != "" {
+		cs = append(cs, c06Case{Name: "wide-burst", Wide: 120, WidePushes: 2100, Hot: []int{1500}, Cold: 50, ColdMax: 2, Seed: seed + 11, SlotStep: 2})
+	} else {
+		cs = append(cs, c06Case{Name: "wide-burst", Wide: 300, WidePushes: 2100, Hot: []int{1500}, Cold: 50, ColdMax: 2, Seed: seed + 11, SlotStep: 2})
+		// more ranked addresses (each has filled a batch) than the popularity rank holds, then the periodic flush
+		cs = append(cs, c06Case{Name: "wide-rank", Wide: 10_400, WidePushes: 1040, Hot: []int{1200}, Cold: 115_000, ColdMax: 1, Seed: seed + 12, SlotStep: 1})
+	}
 	cs = append(cs, c06Case{Name: "periodic-flush", Hot: hotP, Cold: 125_000, ColdMax: 1, Seed: seed + 7, MultiKey: 0, SlotStep: 1})
 	if ev.Thorough() {
 		cs = append(cs, c06Case{Name: "periodic-flush-2", Hot: append(append([]int{}, hotP...), 3000, 1001, 2099, 150, 100, 98, 5), Cold: 260_000, ColdMax: 1, Seed: seed + 8, MultiKey: 5, SlotStep: 1})
@@ -267,7 +305,7 @@ func c06RealCases(seed int64) []c06Case {
 func TestVerifC06Real(t *testing.T) {
 	rec := ev.New("C06", "real-thresholds")
 	defer rec.Flush()
-	rec.Rule("writer life cycles at the real thresholds: per-address counts {1,999,1000,1001,1999,2000,2001,3000,5000,...} interleaved with cold addresses, multi-address pushes, > 100 000 distinct addresses (periodic partial flush); every pushed address read back and compared with the reversed push list; distinct = (case, per-address count) pairs whose count reaches a full batch or whose case triggers the periodic flush")
+	rec.Rule("writer life cycles at the real thresholds: per-address counts {1,999,1000,1001,1999,2000,2001,3000,5000,...} interleaved with cold addresses, multi-address pushes, > 100 000 distinct addresses (periodic partial flush), bursts of hundreds of full batches at one push, more ranked addresses than the popularity rank holds; every pushed address read back and compared with the reversed push list; distinct = (case, per-address count) pairs whose count reaches a full batch or whose case triggers the periodic flush")
 	root := filepath.Join(ev.Scratch(), "c06real")
 	os.MkdirAll(root, 0o755)
 	defer os.RemoveAll(root)
@@ -292,6 +330,9 @@ func TestVerifC06Real(t *testing.T) {
 				if n >= 1000 || c.Cold > 100_000 {
 					rec.Distinct(fmt.Sprintf("%s/%d", c.Name, n))
 				}
+			}
+			if c.Wide > 0 && c.WidePushes >= 1000 {
+				rec.Distinct(fmt.Sprintf("%s/wide-%dx%d", c.Name, c.Wide, c.WidePushes))
 			}
 			rec.Sample(c)
 		}()
